@@ -102,7 +102,7 @@ export async function compare(ctx, prog, steps, pools /* Map parserName -> value
 }
 
 export async function run(ctx) {
-  const nProgs = ctx.share(6000, 120000);
+  const nProgs = ctx.share(24000, 120000);
   let sampled = 0;
   for await (const item of corpus(ctx, { label: "C08", count: nProgs, features: FEATURES })) {
     const { prog, parsers } = item;
